@@ -50,7 +50,7 @@ func directiveInsertWordBreaks(value data.Value, args []data.Value) data.Value {
 	// count the characters of the value (not of its escaped form, so that a
 	// character reference is one character and is never split), and escape
 	// every character on the way out.
-	for _, ch := range input {
+	for i, ch := range input {
 		switch {
 		case ch == ' ':
 			chars = 0
@@ -60,7 +60,14 @@ func directiveInsertWordBreaks(value data.Value, args []data.Value) data.Value {
 		default:
 			chars++
 		}
-		template.HTMLEscape(&output, []byte(string(ch)))
+		// (copy the bytes of the input: ch is U+FFFD for a byte that is not UTF-8)
+		var width = 1
+		if ch != utf8.RuneError {
+			width = utf8.RuneLen(ch)
+		} else if r, w := utf8.DecodeRuneInString(input[i:]); r == utf8.RuneError && w > 1 {
+			width = w
+		}
+		template.HTMLEscape(&output, []byte(input[i:i+width]))
 	}
 	return data.String(output.String())
 }
